@@ -457,4 +457,204 @@ theorem arel_run (I : Impl σ) (S : Sys) (hS : S.ensure = ensureClientFixed) (ev
         rw [hA]
         exact ih A' m' _ hrel ((mfacts_step S evs m seen hf t m' hs b' hrel' hfr).1 hl) hls' hfresh
 
+
+/-! ### the same with the freshness facts supplied step by step -/
+
+/-- ids that have appeared once the events `l` have happened -/
+def seenFold (seen0 : List Uuid) : List Ev → List Uuid
+  | [] => seen0
+  | e :: es => seenFold (seenAfter e seen0) es
+
+theorem seenFold_snoc (seen0 : List Uuid) (l : List Ev) (e : Ev) :
+    seenFold seen0 (l ++ [e]) = seenAfter e (seenFold seen0 l) := by
+  induction l generalizing seen0 with
+  | nil => rfl
+  | cons x xs ih => simp only [List.cons_append, seenFold]; exact ih _
+
+theorem fresh_snoc (l : List Ev) (e : Ev) (seen0 : List Uuid) :
+    Fresh (l ++ [e]) seen0 ↔ Fresh l seen0 ∧ FreshEv e (seenFold seen0 l) := by
+  induction l generalizing seen0 with
+  | nil => simp [Fresh, seenFold]
+  | cons x xs ih => simp only [List.cons_append, Fresh, seenFold, ih, and_assoc]
+
+theorem mem_seenAfter (e : Ev) (seen : List Uuid) (x : Uuid) :
+    x ∈ seenAfter e seen ↔ (x ∈ e.argIds ∨ e.drawn = some x) ∨ x ∈ seen := by
+  simp only [seenAfter, List.mem_append]
+  cases hd : e.drawn with
+  | none => simp
+  | some n => simp [eq_comm]
+
+theorem mem_seenFold (seen0 : List Uuid) (l : List Ev) (x : Uuid) :
+    x ∈ seenFold seen0 l ↔ x ∈ seen0 ∨ ∃ e ∈ l, x ∈ e.argIds ∨ e.drawn = some x := by
+  induction l generalizing seen0 with
+  | nil => simp [seenFold]
+  | cons e es ih =>
+    simp only [seenFold, ih, mem_seenAfter, List.mem_cons, exists_eq_or_imp]
+    constructor
+    · rintro ((h | h) | h)
+      · exact .inr (.inl h)
+      · exact .inl h
+      · exact .inr (.inr h)
+    · rintro (h | h | h)
+      · exact .inl (.inr h)
+      · exact .inl (.inl h)
+      · exact .inr h
+
+def seenAt (seen0 : List Uuid) (evs : List Ev) (m : MState) : List Uuid := seenFold seen0 (evsOf evs (linOrder m.log))
+
+theorem mstep_linOrder (S : Sys) (evs : List Ev) (m m' : MState) (t : Nat) (hs : MStep S evs m t m') :
+    (m'.log = m.log ++ [.lin t] ∧ linOrder m'.log = linOrder m.log ++ [t]) ∨
+    (m'.log ≠ m.log ++ [.lin t] ∧ linOrder m'.log = linOrder m.log) := by
+  have hne : ∀ (x : Act), x ≠ Act.lin t → m.log ++ [x] ≠ m.log ++ [Act.lin t] := by
+    intro x hx h; exact hx (by simpa using h)
+  have hne2 : m.log ≠ m.log ++ [Act.lin t] := by
+    intro h; have := congrArg List.length h; simp at this
+  cases hs with
+  | invoke e he hp => exact .inr ⟨hne _ (by simp), by simp [linOrder_append]⟩
+  | respond e he o hp => exact .inr ⟨hne _ (by simp), by simp [linOrder_append]⟩
+  | toCreate e he ph hp hph hn => exact .inr ⟨hne2, rfl⟩
+  | create e he hp => exact .inr ⟨hne2, rfl⟩
+  | lin e he ph hp hph hn => exact .inl ⟨rfl, by simp [linOrder_append]⟩
+
+/-- everything the lock-step run maintains -/
+structure RunInv (I : Impl σ) (S : Sys) (evs : List Ev) (a0 : AS) (seen0 : List Uuid) (A : Atomic σ Out) (m : MState) : Prop where
+  arel : ARel I S evs A m
+  facts : MFacts evs m (seenAt seen0 evs m)
+  lin : LinState S evs a0 m
+  fresh : Fresh (evsOf evs (linOrder m.log)) seen0
+
+theorem evsOf_snoc (evs : List Ev) (l : List Nat) (t : Nat) (e : Ev) (he : evs[t]? = some e) :
+    evsOf evs (l ++ [t]) = evsOf evs l ++ [e] := by
+  simp [evsOf, List.filterMap_append, he]
+
+theorem runinv_step (I : Impl σ) (S : Sys) (hS : S.ensure = ensureClientFixed) (evs : List Ev)
+    (hhttp : ∀ e ∈ evs, e.isHttp = true) (a0 : AS) (seen0 : List Uuid) (A : Atomic σ Out) (m : MState)
+    (h : RunInv I S evs a0 seen0 A m) (t : Nat) (m' : MState) (hm : mstep S evs m t = some m')
+    (hfr : m'.log = m.log ++ [.lin t] → ∀ e, evs[t]? = some e → FreshEv e (seenAt seen0 evs m)) :
+    ∃ A', stepAtomic I.B I.mode A t = some A' ∧ RunInv I S evs a0 seen0 A' m' := by
+  have hs := mstep_rel S evs m m' t hm
+  have hls' := linstate_step S evs hhttp a0 m t m' h.lin hs
+  obtain ⟨b', _, _, hrel', _⟩ := hls'.sim
+  obtain ⟨e, he⟩ := mstep_ev S evs m m' t hs
+  have hfr' : ∀ e', evs[t]? = some e' → m'.log = m.log ++ [.lin t] → FreshEv e' (seenAt seen0 evs m) :=
+    fun e' he' hl => hfr hl e' he'
+  obtain ⟨A', hA, hrel⟩ := arel_step I S hS evs hhttp A m _ h.arel h.facts t m' hs hfr'
+  have hmf := mfacts_step S evs m _ h.facts t m' hs b' hrel' hfr'
+  refine ⟨A', hA, hrel, ?_, hls', ?_⟩
+  · rcases mstep_linOrder S evs m m' t hs with ⟨hl, hlo⟩ | ⟨hl, hlo⟩
+    · have : seenAt seen0 evs m' = seenAfter e (seenAt seen0 evs m) := by
+        simp only [seenAt, hlo, evsOf_snoc evs _ t e he, seenFold_snoc]
+      rw [this]; exact hmf.2 hl e he
+    · have : seenAt seen0 evs m' = seenAt seen0 evs m := by simp only [seenAt, hlo]
+      rw [this]; exact hmf.1 hl
+  · rcases mstep_linOrder S evs m m' t hs with ⟨hl, hlo⟩ | ⟨hl, hlo⟩
+    · rw [hlo, evsOf_snoc evs _ t e he, fresh_snoc]
+      exact ⟨h.fresh, hfr hl e he⟩
+    · rw [hlo]; exact h.fresh
+
+theorem runAtomic_cons_none (B : Backend σ) (mode : TxnMode) {ρ : Type} (a : Atomic σ ρ) (t : Nat) (l : List Nat)
+    (h : stepAtomic B mode a t = none) : runAtomic B mode a (t :: l) = runAtomic B mode a l := by rw [runAtomic, h]
+theorem runAtomic_cons_some (B : Backend σ) (mode : TxnMode) {ρ : Type} (a a' : Atomic σ ρ) (t : Nat) (l : List Nat)
+    (h : stepAtomic B mode a t = some a') : runAtomic B mode a (t :: l) = runAtomic B mode a' l := by rw [runAtomic, h]
+
+/-- the lock-step run, with the freshness of each drawn id supplied at the step that uses it (the supplier may use
+    everything established up to that step) -/
+theorem runinv_run (I : Impl σ) (S : Sys) (hS : S.ensure = ensureClientFixed) (evs : List Ev)
+    (hhttp : ∀ e ∈ evs, e.isHttp = true) (a0 : AS) (seen0 : List Uuid) (sch : List Nat) (A : Atomic σ Out) (m : MState)
+    (h : RunInv I S evs a0 seen0 A m)
+    (hcb : ∀ s1 t s2, sch = s1 ++ t :: s2 →
+      RunInv I S evs a0 seen0 (runAtomic I.B I.mode A s1) (mrun S evs m s1) →
+      ∀ m' e, mstep S evs (mrun S evs m s1) t = some m' → m'.log = (mrun S evs m s1).log ++ [.lin t] → evs[t]? = some e →
+        FreshEv e (seenAt seen0 evs (mrun S evs m s1))) :
+    RunInv I S evs a0 seen0 (runAtomic I.B I.mode A sch) (mrun S evs m sch) := by
+  induction sch generalizing A m with
+  | nil => exact h
+  | cons t ts ih =>
+    cases hm : mstep S evs m t with
+    | none =>
+      rw [mrun_cons_none _ _ _ _ _ hm, runAtomic_cons_none _ _ _ _ _ (atomic_none I S evs A m h.arel t hm)]
+      refine ih A m h ?_
+      intro s1 t' s2 hs hri m' e hm' hl he
+      have := hcb (t :: s1) t' s2 (by rw [hs]; rfl)
+      rw [mrun_cons_none _ _ _ _ _ hm, runAtomic_cons_none _ _ _ _ _ (atomic_none I S evs A m h.arel t hm)] at this
+      exact this hri m' e hm' hl he
+    | some m' =>
+      obtain ⟨A', hA, hri'⟩ := runinv_step I S hS evs hhttp a0 seen0 A m h t m' hm
+        (fun hl e he => hcb [] t ts rfl h m' e hm hl he)
+      rw [mrun_cons_some _ _ _ _ _ _ hm, runAtomic_cons_some _ _ _ _ _ _ hA]
+      refine ih A' m' hri' ?_
+      intro s1 t' s2 hs hri m'' e hm'' hl he
+      have := hcb (t :: s1) t' s2 (by rw [hs]; rfl)
+      rw [mrun_cons_some _ _ _ _ _ _ hm, runAtomic_cons_some _ _ _ _ _ _ hA] at this
+      exact this hri m'' e hm'' hl he
+
+/-- … and at every prefix of the schedule -/
+theorem runinv_prefix (I : Impl σ) (S : Sys) (hS : S.ensure = ensureClientFixed) (evs : List Ev)
+    (hhttp : ∀ e ∈ evs, e.isHttp = true) (a0 : AS) (seen0 : List Uuid) (sch : List Nat) (A : Atomic σ Out) (m : MState)
+    (h : RunInv I S evs a0 seen0 A m)
+    (hcb : ∀ s1 t s2, sch = s1 ++ t :: s2 →
+      RunInv I S evs a0 seen0 (runAtomic I.B I.mode A s1) (mrun S evs m s1) →
+      ∀ m' e, mstep S evs (mrun S evs m s1) t = some m' → m'.log = (mrun S evs m s1).log ++ [.lin t] → evs[t]? = some e →
+        FreshEv e (seenAt seen0 evs (mrun S evs m s1)))
+    (p q : List Nat) (hpq : sch = p ++ q) :
+    RunInv I S evs a0 seen0 (runAtomic I.B I.mode A p) (mrun S evs m p) := by
+  refine runinv_run I S hS evs hhttp a0 seen0 p A m h ?_
+  intro s1 t s2 hs
+  exact hcb s1 t (s2 ++ q) (by rw [hpq, hs]; simp)
+
+/-! ### threads of the atomic semantics only move forward -/
+
+def Th.isIdle {ρ : Type} : Th σ ρ → Bool | .idle _ => true | _ => false
+def Th.isFinished {ρ : Type} : Th σ ρ → Bool | .finished _ => true | _ => false
+
+theorem stepAtomic_mono (B : Backend σ) (mode : TxnMode) {ρ : Type} (a a' : Atomic σ ρ) (t : Nat)
+    (h : stepAtomic B mode a t = some a') (u : Nat) :
+    (∀ x, a.threads[u]? = some x → x.isIdle = false → ∃ y, a'.threads[u]? = some y ∧ y.isIdle = false) ∧
+    (∀ x, a.threads[u]? = some x → x.isFinished = true → ∃ y, a'.threads[u]? = some y ∧ y.isFinished = true) := by
+  unfold stepAtomic at h
+  cases hth : a.threads[t]? with
+  | none => simp [hth] at h
+  | some th =>
+    rw [hth] at h
+    have key : ∀ (z : Th σ ρ) (db : σ), z.isIdle = false → th.isFinished = false →
+        a' = ⟨db, a.threads.set t z⟩ →
+        (∀ x, a.threads[u]? = some x → x.isIdle = false → ∃ y, a'.threads[u]? = some y ∧ y.isIdle = false) ∧
+        (∀ x, a.threads[u]? = some x → x.isFinished = true → ∃ y, a'.threads[u]? = some y ∧ y.isFinished = true) := by
+      intro z db hz hfin ha'
+      subst ha'
+      by_cases hut : u = t
+      · subst hut
+        refine ⟨fun x _ _ => ⟨z, getElem?_set_eq' _ _ _ _ hth, hz⟩, fun x hx hxf => ?_⟩
+        rw [hth] at hx; cases hx
+        rw [hfin] at hxf; cases hxf
+      · refine ⟨fun x hx hxi => ⟨x, ?_, hxi⟩, fun x hx hxf => ⟨x, ?_, hxf⟩⟩ <;>
+        · show (a.threads.set t z)[u]? = _
+          rw [getElem?_set_ne' _ _ _ _ (Ne.symm hut)]; exact hx
+    cases th with
+    | idle p => simp only [Option.some.injEq] at h; exact key _ a.db rfl rfl h.symm
+    | finished r => simp at h
+    | inTxn cl st body k => simp at h
+    | outside p =>
+      cases p with
+      | done r => simp only [Option.some.injEq] at h; exact key _ a.db rfl rfl h.symm
+      | txn cl body k => simp only [Option.some.injEq] at h; exact key _ _ rfl rfl h.symm
+
+theorem runAtomic_mono (B : Backend σ) (mode : TxnMode) {ρ : Type} (a : Atomic σ ρ) (sch : List Nat) (u : Nat) :
+    (∀ x, a.threads[u]? = some x → x.isIdle = false →
+      ∃ y, (runAtomic B mode a sch).threads[u]? = some y ∧ y.isIdle = false) ∧
+    (∀ x, a.threads[u]? = some x → x.isFinished = true →
+      ∃ y, (runAtomic B mode a sch).threads[u]? = some y ∧ y.isFinished = true) := by
+  induction sch generalizing a with
+  | nil => exact ⟨fun x hx hi => ⟨x, hx, hi⟩, fun x hx hf => ⟨x, hx, hf⟩⟩
+  | cons t ts ih =>
+    cases hst : stepAtomic B mode a t with
+    | none => rw [runAtomic_cons_none _ _ _ _ _ hst]; exact ih a
+    | some a' =>
+      rw [runAtomic_cons_some _ _ _ _ _ _ hst]
+      have h1 := stepAtomic_mono B mode a a' t hst u
+      have h2 := ih a'
+      refine ⟨fun x hx hi => ?_, fun x hx hf => ?_⟩
+      · obtain ⟨y, hy, hyi⟩ := h1.1 x hx hi; exact h2.1 y hy hyi
+      · obtain ⟨y, hy, hyf⟩ := h1.2 x hx hf; exact h2.2 y hy hyf
+
 end Tcs
